@@ -122,6 +122,19 @@ func (s *ccSys) reconcile(op string) {
 	}
 }
 
+// justSet: an entry is dropped for age by a tick of the wheel, never between ticks - right
+// after a Set (no tick since) the key is there with the value just set, however short the
+// (jittered) expiry is compared with the one-second tick.
+func (s *ccSys) justSet(op, k, v string) {
+	vrt.Settle()
+	s.c.lock.Lock()
+	got, ok := s.c.data[k]
+	s.c.lock.Unlock()
+	if !ok || got != v {
+		s.r.Failf("after %s: key %s just set to %s (no tick since) reads %v,%v: dropped at 0%% of its expiry", op, k, v, got, ok)
+	}
+}
+
 func (s *ccSys) apply(op string) {
 	f := strings.Split(op, ":")
 	s.n++
@@ -130,12 +143,14 @@ func (s *ccSys) apply(op string) {
 		v := fmt.Sprintf("v%d", s.n)
 		s.c.Set(f[1], v)
 		s.modelSet(f[1], v, s.expire)
+		s.justSet(op, f[1], v)
 	case "setx":
 		var e int
 		fmt.Sscan(f[2], &e)
 		v := fmt.Sprintf("v%d", s.n)
 		s.c.SetWithExpire(f[1], v, time.Duration(e)*time.Second)
 		s.modelSet(f[1], v, e)
+		s.justSet(op, f[1], v)
 	case "get":
 		got, ok := s.c.Get(f[1])
 		e, want := s.m[f[1]]
@@ -293,6 +308,8 @@ func TestVerifCacheHistories(t *testing.T) {
 			cfgs = append(cfgs, cfg{le[0], le[1], ph})
 		}
 	}
+	// an expiry of one second: with the low jitter draw it is shorter than the wheel's tick
+	cfgs = append(cfgs, cfg{0, 1, 0}, cfg{2, 1, 299})
 	depth := 3
 	if vrt.Thorough() {
 		depth = 5
